@@ -2,111 +2,102 @@ From C03 Require Import Model ProofsLayoutArith.
 Local Open Scope Z_scope.
 Ltac Zify.zify_post_hook ::= Z.div_mod_to_equations.
 
-Definition fagree (n c : Z * Z) : Prop :=
-  fst n = fst c /\ 0 <= fst n /\
-  (0 < fst n -> snd n = snd c /\ p2 (snd c)) /\
-  (fst n = 0 -> snd n = 0 /\ snd c = 1).
+(* size and alignment coincide outright (zero-size types included, after the repair 61ca8bb) *)
+Definition fagree (n c : Z * Z) : Prop := n = c /\ 0 <= fst c /\ p2 (snd c).
 Definition agree (t : ty) : Prop := fagree (nl t) (cl t).
 
 Lemma emptysize_0 : emptysize = 0. Proof. reflexivity. Qed.
 
 (* facts about the scraped primitive tables *)
 Lemma prim_facts k : (k < length nelua_prims)%nat ->
-  fagree (let '(s, a) := nelua_prim k in (s, Z.min a maxalign)) (c_prim k) /\ 0 < fst (c_prim k).
+  fagree (let '(s, a) := nelua_prim k in (s, Z.min a maxalign)) (c_prim k).
 Proof.
   intros Hk.
   assert (H : forallb (fun k => let '(s, a) := nelua_prim k in
               (s =? fst (c_prim k)) && (Z.min a maxalign =? snd (c_prim k)) && (0 <? s) &&
               existsb (Z.eqb (snd (c_prim k))) pow2s) (seq 0 (length nelua_prims)) = true) by (vm_compute; reflexivity).
   rewrite forallb_forall in H. specialize (H k). rewrite in_seq in H. specialize (H ltac:(lia)).
-  destruct (nelua_prim k) as [s a]. 
+  destruct (nelua_prim k) as [s a]. destruct (c_prim k) as [s' a'] eqn:Ec. cbn [fst snd] in H.
   apply andb_prop in H. destruct H as (H & Hp). apply andb_prop in H. destruct H as (H & Hs).
   apply andb_prop in H. destruct H as (H1 & H2).
   apply existsb_exists in Hp. destruct Hp as (x & Hx & Ex). apply Z.eqb_eq in Ex. subst x.
-  unfold fagree. cbn [fst snd]. repeat split; try lia; auto.
+  unfold fagree. cbn [fst snd]. repeat split; try lia; auto. f_equal; lia.
 Qed.
 Lemma ptr_facts : fagree (ptrsize, Z.min ptrsize maxalign) c_pointer.
-Proof. unfold fagree. vm_compute. repeat split; try discriminate; try reflexivity; intros; try discriminate; auto 20. Qed.
+Proof. unfold fagree. vm_compute. repeat split; try discriminate; auto 20. Qed.
 
 (* ---------- records ---------- *)
-Definition Rrec (packed : bool) (sn sc : Z * Z * list Z) : Prop :=
-  let '(no, na, noffs) := sn in let '(co, ca, coffs) := sc in
-  no = co /\ noffs = coffs /\ 0 <= no /\ p2 ca /\
-  (if packed then na = 1 /\ ca = 1 else na = ca) /\ (no = 0 -> ca = 1).
+Definition Rrec (sn sc : Z * Z * list Z) : Prop :=
+  sn = sc /\ 0 <= fst (fst sc) /\ p2 (snd (fst sc)).
 
 Lemma rec_step_ok packed sn sc n c :
-  Rrec packed sn sc -> fagree n c -> Rrec packed (nl_rec_step packed sn n) (c_rec_step packed sc c).
+  Rrec sn sc -> fagree n c -> Rrec (nl_rec_step packed sn n) (c_rec_step packed sc c).
 Proof.
   destruct sn as [[no na] noffs], sc as [[co ca] coffs], n as [fs fa], c as [fs' fca].
   unfold Rrec, fagree, nl_rec_step, c_rec_step. cbn [fst snd].
-  intros (Eo & Eoffs & Ho & Hp & Ha & Hz) (Es & Hs & Hpos & Hzero). subst co coffs fs'.
-  pose proof (p2_pos _ Hp) as Hca.
+  intros (E & Ho & Hp) (E2 & Hs & Hpf). inversion E; inversion E2; subst.
+  pose proof (p2_pos _ Hp). pose proof (p2_pos _ Hpf).
   destruct packed.
-  - destruct Ha as (-> & ->). rewrite roundup_1. repeat split; try lia; auto.
-  - subst na. destruct (Z.eq_dec fs 0) as [Ez|Ez].
-    + destruct (Hzero Ez) as (-> & ->). rewrite align_forward_0, roundup_1.
-      rewrite !Z.max_l by lia. repeat split; try lia; auto.
-    + destruct (Hpos ltac:(lia)) as (-> & Hpf). pose proof (p2_pos _ Hpf).
-      rewrite align_forward_roundup by lia.
-      destruct (roundup_spec no fca ltac:(lia) Ho) as (_ & L & _).
-      repeat split; try lia; auto. apply p2_max; auto.
+  - rewrite roundup_1. rewrite (Z.max_l ca 1) by lia. repeat split; try lia; auto.
+  - rewrite align_forward_roundup by lia.
+    destruct (roundup_spec co fca ltac:(lia) Ho) as (_ & L & _).
+    repeat split; try lia. apply p2_max; auto.
 Qed.
 
-Lemma rec_fold_ok packed ns cs : Forall2 fagree ns cs -> forall sn sc, Rrec packed sn sc ->
-  Rrec packed (fold_left (nl_rec_step packed) ns sn) (fold_left (c_rec_step packed) cs sc).
+Lemma rec_fold_ok packed ns cs : Forall2 fagree ns cs -> forall sn sc, Rrec sn sc ->
+  Rrec (fold_left (nl_rec_step packed) ns sn) (fold_left (c_rec_step packed) cs sc).
 Proof.
   induction 1 as [|n c ns cs Hnc _ IH]; intros sn sc HR; [exact HR|].
   cbn [fold_left]. apply IH. apply rec_step_ok; assumption.
 Qed.
 
-Lemma rec_init packed : Rrec packed (0, 1, []) (0, 1, []).
-Proof. unfold Rrec. destruct packed; repeat split; try lia; auto using p2_1. Qed.
+Lemma rec_init : Rrec (0, 1, []) (0, 1, []).
+Proof. unfold Rrec. cbn. repeat split; try lia; auto using p2_1. Qed.
 
-Lemma rec_finish_ok n packed aligned no na noffs co ca coffs :
-  Rrec packed (no, na, noffs) (co, ca, coffs) ->
-  match aligned with Some A => p2 A /\ roundup co ca <> 0 | None => True end ->
-  fagree (nl_rec_finish (S n) packed aligned no na)
-         (let align := match aligned with Some A => Z.max ca A | None => ca end in (roundup co align, align)).
+(* packed records keep alignment 1 on both sides *)
+Lemma packed_align_1 ns : forall off al offs, al = 1 ->
+  snd (fst (fold_left (nl_rec_step true) ns (off, al, offs))) = 1.
 Proof.
-  unfold Rrec. intros (<- & _ & Ho & Hp & Ha & Hz) Hal.
-  pose proof (p2_pos _ Hp) as Hca.
+  induction ns as [|[fs fa] ns IH]; intros off al offs ->; [reflexivity|]. cbn [fold_left nl_rec_step]. apply IH. reflexivity.
+Qed.
+
+Lemma rec_finish_ok n packed aligned o a :
+  0 <= o -> p2 a -> (packed = true -> a = 1) ->
+  match aligned with Some A => p2 A | None => True end ->
+  fagree (nl_rec_finish (S n) packed aligned o a)
+         (let align := match aligned with Some A => Z.max a A | None => a end in (roundup o align, align)).
+Proof.
+  intros Ho Hp Hpk Hal. pose proof (p2_pos _ Hp) as Ha.
   unfold nl_rec_finish, fagree. rewrite emptysize_0.
-  assert (E1 : (if packed then no else align_forward no na) = roundup no ca).
-  { destruct packed; [destruct Ha as (-> & ->); rewrite roundup_1; reflexivity|subst na; apply align_forward_roundup; lia]. }
-  rewrite E1.
-  destruct (roundup_spec no ca Hca Ho) as (_ & L & _).
+  assert (E1 : (if packed then o else align_forward o a) = roundup o a).
+  { destruct packed; [rewrite (Hpk eq_refl), roundup_1; reflexivity|apply align_forward_roundup; lia]. }
+  rewrite E1. destruct (roundup_spec o a Ha Ho) as (_ & L & _).
   destruct aligned as [A|].
-  - destruct Hal as (HpA & Hnz). pose proof (p2_pos _ HpA) as HA.
+  - pose proof (p2_pos _ Hal) as HA.
     rewrite align_forward_roundup by lia.
     rewrite roundup_roundup by (try lia; apply p2_divides; auto).
-    assert (En : Z.max A na = Z.max ca A).
-    { destruct packed; [destruct Ha as (-> & ->)|subst na]; lia. }
-    rewrite En.
-    assert (Hm : 1 <= Z.max ca A) by lia.
-    destruct (roundup_spec no (Z.max ca A) Hm Ho) as (_ & L2 & _).
-    assert (0 < no). { destruct (Z.eq_dec no 0) as [->|]; [exfalso; apply Hnz; apply roundup_id; [lia|apply Z.mod_0_l; lia]|lia]. }
-    replace (roundup no (Z.max ca A) =? 0) with false by lia.
-    cbn [fst snd]. repeat split; try lia. apply p2_max; auto.
-  - destruct (roundup no ca =? 0) eqn:E0; cbn [fst snd].
-    + assert (no = 0) by lia. specialize (Hz H). repeat split; try lia.
-    + repeat split; try lia; auto. destruct packed; [destruct Ha as (-> & ->)|subst na]; reflexivity.
+    rewrite (Z.max_comm A a).
+    assert (Hm : 1 <= Z.max a A) by lia.
+    destruct (roundup_spec o (Z.max a A) Hm Ho) as (_ & L2 & _).
+    assert (Hpm : p2 (Z.max a A)) by (apply p2_max; auto).
+    destruct (roundup o (Z.max a A) =? 0) eqn:E0; cbn [fst snd].
+    + assert (E : roundup o (Z.max a A) = 0) by lia. rewrite E, Z.max_l by lia. repeat split; try lia; auto.
+    + repeat split; try lia; auto.
+  - destruct (roundup o a =? 0) eqn:E0; cbn [fst snd].
+    + assert (E : roundup o a = 0) by lia. rewrite E, Z.max_l by lia. repeat split; try lia; auto.
+    + repeat split; try lia; auto.
 Qed.
 
 (* ---------- unions ---------- *)
-Definition Runi (sn sc : Z * Z) : Prop :=
-  fst sn = fst sc /\ 0 <= fst sn /\ snd sn = snd sc /\ p2 (snd sc) /\ (fst sn = 0 -> snd sc = 1).
+Definition Runi (sn sc : Z * Z) : Prop := sn = sc /\ 0 <= fst sc /\ p2 (snd sc).
 Lemma uni_fold_ok ns cs : Forall2 fagree ns cs -> forall sn sc, Runi sn sc ->
   Runi (fold_left (fun st f => (Z.max (fst st) (fst f), Z.max (snd st) (snd f))) ns sn)
        (fold_left (fun st f => (Z.max (fst st) (fst f), Z.max (snd st) (snd f))) cs sc).
 Proof.
   induction 1 as [|n c ns cs Hnc _ IH]; intros sn sc HR; [exact HR|].
   cbn [fold_left]. apply IH. clear IH.
-  destruct sn as [s a], sc as [s' a'], n as [fs fa], c as [fs' fca]. unfold Runi, fagree in *. cbn [fst snd] in *.
-  destruct HR as (<- & Hs & <- & Hp & Hz). destruct Hnc as (<- & Hfs & Hpos & Hzero).
-  pose proof (p2_pos _ Hp).
-  destruct (Z.eq_dec fs 0) as [Ez|Ez].
-  - destruct (Hzero Ez) as (-> & ->). rewrite !(Z.max_l a) by lia. repeat split; try lia; auto.
-  - destruct (Hpos ltac:(lia)) as (-> & Hpf). repeat split; try lia. apply p2_max; auto.
+  destruct HR as (-> & Hs & Hp). destruct Hnc as (-> & Hfs & Hpf).
+  unfold Runi. cbn [fst snd]. repeat split; try lia. apply p2_max; auto.
 Qed.
 
 (* ---------- the theorem ---------- *)
@@ -116,52 +107,51 @@ Proof. induction 1; cbn [map]; constructor; auto. Qed.
 Lemma layout_agree : forall t, wfb t = true -> agree t.
 Proof.
   induction t as [k| |t n IH|fs packed aligned IH|fs IH] using ty_ind'; intros Hwf; unfold agree.
-  - cbn [wfb] in Hwf. apply Nat.ltb_lt in Hwf. cbn [nl cl]. apply (proj1 (prim_facts k Hwf)).
+  - cbn [wfb] in Hwf. apply Nat.ltb_lt in Hwf. cbn [nl cl]. apply (prim_facts k Hwf).
   - cbn [nl cl]. apply ptr_facts.
   - cbn [wfb] in Hwf. apply andb_prop in Hwf. destruct Hwf as (Hw & Hn). specialize (IH Hw).
     unfold agree, fagree in IH. cbn [nl cl]. destruct (nl t) as [s a], (cl t) as [s' a']. cbn [fst snd] in *.
-    destruct IH as (<- & Hs & Hpos & Hzero). unfold fagree. cbn [fst snd].
-    repeat split; try nia; try (apply Hpos; nia); try (apply Hzero; nia).
+    destruct IH as (E & Hs & Hp). inversion E; subst. unfold fagree. cbn [fst snd]. repeat split; auto. nia.
   - cbn [wfb] in Hwf. apply andb_prop in Hwf. destruct Hwf as (Hall & Hal).
     assert (HF : Forall agree fs).
     { rewrite forallb_forall in Hall. rewrite Forall_forall in *. intros x Hx. apply IH; auto. }
-    pose proof (rec_fold_ok packed _ _ (Forall2_map_agree fs HF) _ _ (rec_init packed)) as HR.
+    pose proof (rec_fold_ok packed _ _ (Forall2_map_agree fs HF) _ _ rec_init) as HR.
     cbn [nl cl].
+    pose proof (packed_align_1 (map nl fs) 0 1 [] eq_refl) as Hpk.
     destruct (fold_left (nl_rec_step packed) (map nl fs) (0, 1, [])) as [[no na] noffs] eqn:En.
     destruct (fold_left (c_rec_step packed) (map cl fs) (0, 1, [])) as [[co ca] coffs] eqn:Ec.
+    destruct HR as (E & Ho & Hp). inversion E; subst. cbn [fst snd] in *.
     destruct fs as [|f fs'].
-    + cbn in En, Ec. inversion En; inversion Ec; subst. cbn [length nl_rec_finish].
+    + cbn in En. inversion En; subst. cbn [length nl_rec_finish].
       destruct aligned as [A|].
-      * exfalso. replace (fst (cl (TRec [] packed None))) with 0 in Hal by (destruct packed; reflexivity).
-        change (negb (0 =? 0)) with false in Hal. rewrite andb_false_r in Hal. discriminate.
-      * unfold nl_rec_finish, fagree. rewrite emptysize_0, roundup_1. cbn. repeat split; try lia; intros; lia.
-    + cbn [length]. apply (rec_finish_ok _ packed aligned no na noffs co ca coffs HR).
-      destruct aligned as [A|]; [|exact I].
-      apply andb_prop in Hal. destruct Hal as (Hal & Hnz). apply andb_prop in Hal. destruct Hal as (Hp & Hle).
-      split; [apply is_pow2_small; [exact Hp|lia]|].
-      cbn [cl] in Hnz. rewrite Ec in Hnz. cbn [fst] in Hnz. lia.
-  - cbn [wfb] in Hwf.
+      * exfalso. cbn [length Nat.eqb negb] in Hal. rewrite andb_false_r in Hal. discriminate.
+      * rewrite emptysize_0, roundup_1. unfold fagree. cbn. repeat split; try lia; auto using p2_1.
+    + cbn [length]. apply rec_finish_ok; auto.
+      * intros ->. rewrite En in Hpk. exact Hpk.
+      * destruct aligned as [A|]; [|exact I].
+        apply andb_prop in Hal. destruct Hal as (Hal & _). apply andb_prop in Hal. destruct Hal as (Hp2 & Hle).
+        apply is_pow2_small; [exact Hp2|lia].
+  - cbn [wfb] in Hwf. apply andb_prop in Hwf. destruct Hwf as (Hall & Hnz).
     assert (HF : Forall agree fs).
-    { rewrite forallb_forall in Hwf. rewrite Forall_forall in *. intros x Hx. apply IH; auto. }
+    { rewrite forallb_forall in Hall. rewrite Forall_forall in *. intros x Hx. apply IH; auto. }
     assert (Hi : Runi (0, 1) (0, 1)) by (unfold Runi; cbn; repeat split; try lia; auto using p2_1).
     pose proof (uni_fold_ok _ _ (Forall2_map_agree fs HF) _ _ Hi) as HR.
-    cbn [nl cl].
+    cbn [cl] in Hnz. cbn [nl cl].
     destruct (fold_left _ (map nl fs) (0, 1)) as [s a].
     destruct (fold_left _ (map cl fs) (0, 1)) as [s' a'].
-    unfold Runi in HR. cbn [fst snd] in HR. destruct HR as (<- & Hs & <- & Hp & Hz).
-    pose proof (p2_pos _ Hp). unfold nl_uni_finish, fagree. rewrite emptysize_0.
-    destruct (s =? 0) eqn:E0; cbn [fst snd].
-    + assert (s = 0) by lia. subst s. rewrite (Hz eq_refl), roundup_1. repeat split; try lia; auto.
-    + rewrite align_forward_roundup by lia. destruct (roundup_spec s a ltac:(lia) Hs) as (_ & L & _).
-      repeat split; try lia; auto.
+    destruct HR as (E & Hs & Hp). inversion E; subst. cbn [fst snd] in *.
+    pose proof (p2_pos _ Hp). unfold nl_uni_finish, fagree.
+    destruct (roundup_spec s' a' ltac:(lia) Hs) as (_ & L & _).
+    destruct (s' =? 0) eqn:E0.
+    + exfalso. assert (s' = 0) by lia. subst. rewrite roundup_id in Hnz by (try lia; apply Z.mod_0_l; lia). discriminate.
+    + rewrite align_forward_roundup by lia. cbn [fst snd]. repeat split; try lia; auto.
 Qed.
 
 (* consequences: the emitted static assertion holds, field offsets coincide *)
 Lemma static_assert_ok t : wfb t = true -> static_assert_holds t = true.
 Proof.
-  intros H. pose proof (layout_agree t H) as A. unfold agree, fagree in A. unfold static_assert_holds.
-  destruct (nl t) as [s a], (cl t) as [s' a']. cbn [fst snd] in *. destruct A as (<- & Hs & Hpos & _).
-  destruct (0 <? s) eqn:E; [|reflexivity]. destruct (Hpos ltac:(lia)) as (-> & _). lia.
+  intros H. pose proof (layout_agree t H) as (E & _). unfold static_assert_holds. rewrite E.
+  destruct (cl t) as [s a]. cbn [fst snd]. destruct (0 <? s); [|reflexivity]. lia.
 Qed.
 
 Lemma offsets_ok fs packed aligned : wfb (TRec fs packed aligned) = true -> nl_offsets fs packed = cl_offsets fs packed.
@@ -169,9 +159,6 @@ Proof.
   intros Hwf. cbn [wfb] in Hwf. apply andb_prop in Hwf. destruct Hwf as (Hall & _).
   assert (HF : Forall agree fs).
   { rewrite forallb_forall in Hall. rewrite Forall_forall. intros x Hx. apply layout_agree; auto. }
-  pose proof (rec_fold_ok packed _ _ (Forall2_map_agree fs HF) _ _ (rec_init packed)) as HR.
-  unfold nl_offsets, cl_offsets.
-  destruct (fold_left (nl_rec_step packed) (map nl fs) (0, 1, [])) as [[no na] noffs].
-  destruct (fold_left (c_rec_step packed) (map cl fs) (0, 1, [])) as [[co ca] coffs].
-  unfold Rrec in HR. destruct HR as (_ & -> & _). reflexivity.
+  pose proof (rec_fold_ok packed _ _ (Forall2_map_agree fs HF) _ _ rec_init) as (E & _).
+  unfold nl_offsets, cl_offsets. rewrite E. reflexivity.
 Qed.
